@@ -24,6 +24,7 @@ def run(chk):
     plan = [
         dict(flavour="asan-ubsan", scen="incr", runs=(600, 20000), opts={"maxNets": 14, "varyScale": 1, "maxMovable": 9}),
         dict(flavour="rel", scen="det", runs=(300, 8000), opts={"cb": 1, "maxNets": 14, "varyScale": 1}),
+        dict(flavour="rel", scen="incr", runs=(400, 10000), opts={"maxNets": 14, "maxMovable": 9, "translate": 1}),
     ]
     run_plan(chk, "C09", plan, nontrivial)
     chk.cov["rule"] = ("(a) every orientation x w,h in 1..3 x pin offset in -1..4 (exhaustive); (b) every update history of the IncrHpwl spec scope "
